@@ -40,8 +40,9 @@ ASSUMPTIONS = ['input strings are Latin-1',
                'theorems speak about normalised equations given as token lists (GNorm.neq); that the equations fsic produces are such '
                'texts is checked per case by K_domain (the extracted GTokenise.tokenise — proved sound and complete for neq_wf — accepts the real equation); it is '
                'proved inside the model for statements written in de-normalised form (C20_reparsed_graph), for whole scripts of such '
-               'statements through splitter, per-statement parse and cross-equation merge (C20_script_graph_edges), and for the renderings '
-               'of all Eval statements (C20_rendered_statements_wf)',
+               'statements through splitter, per-statement parse and cross-equation merge (C20_script_graph_edges); for source statements '
+               'with { } / < > terms under source-side conditions only (C20_source_statement_wf, C20_source_script_graph: dq_ok + sep_ok, '
+               'normal spacing between tokens); and for the renderings of all Eval statements (C20_rendered_statements_wf)',
                'the link to the evaluation semantics (Eval.eval_expr) is proved for statements rendered by GNorm.rstmt (fully parenthesised)',
                'conditional expressions read only the selected branch: "every in-edge is read" is proved / observed for conditional-free '
                'equations, and observed on at least one of three data vectors otherwise']
